@@ -14,6 +14,7 @@ import json
 import os
 
 ON = os.environ.get('FSIC_VERIF') == '1'
+CONTAINER_OPS = ON and os.environ.get('FSIC_VERIF_OPS') == '1'  # also trace container operations (`c_op` events)
 
 _sink = None
 _seq = 0
